@@ -2290,6 +2290,7 @@ func (e *episode) execPeer(run *hx.Run, o peerOp) {
 		if !ok {
 			pk = testutil.RandomCorePubKey(new(testing.T))
 		}
+		var keyDigitIdx *postAlt
 		if es.alt.kind == "key" {
 			switch es.alt.a {
 			case 0:
@@ -2298,6 +2299,18 @@ func (e *episode) execPeer(run *hx.Run, o peerOp) {
 				pk = core.PubKey("0x1234")
 			case 2:
 				pk, _ = cl.corePkOf(-1)
+			case 4:
+				// the set key is a peer-chosen string: a real validator key followed by the first decimal digit of the
+				// signing share's index, the claimed share index being the remaining digits — (P, 10) becomes (P+"1", 0).
+				// The validator is unknown and must be refused; a lookup keyed by key ++ index would take it for (P, 10).
+				if es.share >= 10 {
+					ds := strconv.Itoa(es.share)
+					rest, _ := strconv.Atoi(ds[1:])
+					pk = core.PubKey(string(pk) + ds[:1])
+					keyDigitIdx = &postAlt{string(pk), alt{kind: "idx", a: uint64(rest)}}
+				} else {
+					pk = core.PubKey(string(pk) + "1")
+				}
 			default:
 				pk = cl.corePks[(es.val+1+cl.m)%cl.m]
 			}
@@ -2305,6 +2318,9 @@ func (e *episode) execPeer(run *hx.Run, o peerOp) {
 		set[pk] = par
 		if es.alt.kind == "idx" || es.alt.kind == "wire" {
 			posts = append(posts, postAlt{string(pk), es.alt})
+		}
+		if keyDigitIdx != nil {
+			posts = append(posts, *keyDigitIdx)
 		}
 	}
 	var msg *pbv1.ParSigExMsg
@@ -2491,6 +2507,9 @@ type gen struct {
 func (g *gen) newEpisode() {
 	shapes := [][2]int{{4, 3}, {3, 2}, {4, 3}, {5, 4}}
 	sh := shapes[g.r.Intn(len(shapes))]
+	if g.r.Chance(1, 6) {
+		sh = [][2]int{{10, 7}, {12, 8}}[g.r.Intn(2)] // share indices with two decimal digits
+	}
 	m := 2 + g.r.Intn(2)
 	if g.r.Chance(1, 3) {
 		m = 6 + g.r.Intn(3) // large sets: many validators with the same duty in one slot
@@ -2701,6 +2720,12 @@ func (g *gen) systematicPeer(kind int) {
 		}
 		for k := uint64(0); k < 4; k++ {
 			one(alt{kind: "key", a: k})
+		}
+		if g.cfg.n >= 10 {
+			es := base
+			es.share = 10 + g.r.Intn(g.cfg.n-9)
+			es.alt = alt{kind: "key", a: 4}
+			g.peer(peerOp{ty: ty, slot: slot, nsub: 1 + g.r.Intn(2), seed: g.seed(), malt: "none", entries: []entrySpec{es}})
 		}
 		for k := 0; k < 4; k++ {
 			one(alt{kind: "wire", a: uint64(g.r.Intn(4096)), b: uint64(g.r.Intn(8))})
